@@ -492,23 +492,241 @@ Section OpsSafe.
     - destruct e; try sret. apply IH.
   Qed.
 
+  (* ---------------------------------------------------------------- MaxAllocToHandlePerIPVersion *)
+  (* address a is recorded for handle h (whatever the attributes) in a version of its block that was written *)
+  Definition recorded_h (H : hist) (h a : N) : Prop :=
+    exists rev c b o x, H rev = Some (KBlock c, VBlock b) /\ owner_of b o = Some x /\ at_handle x = Some h /\
+                        (a = (bk_cidr b + N.of_nat o)%N \/ o = ordinal_of b a).
+  Lemma recorded_h_mono H H' h a : hext H H' -> recorded_h H h a -> recorded_h H' h a.
+  Proof. intros E (rev & c & b & o & x & A & B). exists rev, c, b, o, x. split; auto. Qed.
+  Lemma Forall_recorded_h_mono H H' h l : hext H H' -> Forall (recorded_h H h) l -> Forall (recorded_h H' h) l.
+  Proof. intros E F. eapply Forall_impl; [|apply F]. intros a. apply recorded_h_mono; auto. Qed.
+  Lemma recorded_recorded_h H h tag a : recorded H h tag a -> recorded_h H h a.
+  Proof. intros (rev & c & b & o & A & B & C). exists rev, c, b, o, {| at_handle := Some h; at_tag := tag |}. auto. Qed.
+
+  Lemma ips_of_recorded H c b rev h : known H c b rev -> Forall (recorded_h H h) (ips_of b h).
+  Proof.
+    intros (KH & _). apply Forall_forall. intros a X. unfold ips_of in X. apply in_map_iff in X.
+    destruct X as (o & <- & X). apply filter_In in X. destruct X as [_ X].
+    destruct (owner_of b o) as [x|] eqn:OO; [|discriminate]. apply optN_eqb_eq in X.
+    exists rev, c, b, o, x. auto.
+  Qed.
+
+  Lemma inc_handle_m_safe fuel : forall h c n ma H, safe H (inc_handle_m fuel h c n ma) Ptrue.
+  Proof.
+    induction fuel as [|f IH]; intros h c n ma H; simpl; [exact I|].
+    sb safe_get_handle. destruct r as [[m rev]|e].
+    - dif; [sret|]. sb safe_update_handle. destruct r; [sret | apply IH].
+    - destruct e; try sret. dif; [sret|]. sb safe_create_handle. destruct r; [sret | apply IH].
+  Qed.
+
+  Lemma ibh_blocks_safe cs : forall h acc H, Forall (recorded_h H h) acc ->
+    safe H (ibh_blocks cs h acc) (fun H' l => Forall (recorded_h H' h) l).
+  Proof.
+    induction cs as [|c t IH]; intros h acc H F; simpl; [exact F|].
+    sb safe_get_block. destruct r as [[b rev]|e].
+    - apply IH. apply Forall_app. split; [eapply Forall_recorded_h_mono; eauto | eapply ips_of_recorded; eauto].
+    - apply IH. eapply Forall_recorded_h_mono; eauto.
+  Qed.
+
+  Definition Pmax (h : N) (H : hist) (r : option (list N)) : Prop :=
+    match r with Some ips => Forall (recorded_h H h) ips | None => True end.
+
+  Lemma handle_max_safe H h num hint : safe H (handle_max h num hint) (Pmax h).
+  Proof.
+    unfold handle_max, ips_by_handle.
+    eapply (@Cas.safeQ_bind key value lopt create_ok update_ok delete_ok VI) with
+      (P := fun H' (r : res (list N)) => match r with inl l => Forall (recorded_h H' h) l | inr _ => True end).
+    - sb safe_get_handle. destruct r as [[m rev]|e]; [|sret].
+      sb ibh_blocks_safe; [constructor|]. sret.
+    - cbv beta. intros H' r E P. destruct r as [ips|e]; [|sret]. dif; [|sret].
+      sret. clear - P. revert num. induction P; intros [|n]; simpl; constructor; auto.
+  Qed.
+
+  Definition Pafm (h : N) (H : hist) (r : afm) : Prop :=
+    match r with AOk ips => Forall (recorded_h H h) ips | _ => True end.
+
+  Lemma assign_from_block_m_safe H b rev c num h tag host ac ma :
+    known H c b rev -> safe H (assign_from_block_m cf (b, rev) c num h tag host ac ma) (Pafm h).
+  Proof.
+    intros KN. unfold assign_from_block_m.
+    destruct (blk_auto_assign b num h tag ac host) as [[b' ips]|] eqn:AA; [|sret].
+    destruct ips as [|a0 ips']; [sret; constructor|].
+    remember (a0 :: ips') as ips.
+    destruct (blk_auto_assign_trans _ _ _ _ _ _ _ _ AA) as [BT REC].
+    sb inc_handle_m_safe. destruct r as [|e|]; try sret.
+    sb safe_update_block; [eapply known_mono; eauto | exact BT |].
+    destruct r as [[b2 rev2]|e].
+    - sret. destruct P0 as [(KH & I2 & C2) ->].
+      destruct KN as (_ & I0 & _).
+      apply Forall_forall. intros a Hin. destruct (REC I0 a Hin) as (o & EA & OW).
+      exists rev2, c, (bump b'), o, {| at_handle := Some h; at_tag := tag |}. auto.
+    - sb dec_handle_safe. sret.
+  Qed.
+
+  Definition Plh (h : N) (H : hist) (l : list N) : Prop := Forall (recorded_h H h) l.
+
+  Lemma assign_retry_m_safe fuel : forall H b rev c rem num h tag host ma hint,
+    known H c b rev -> safe H (assign_retry_m cf fuel (b, rev) c rem num h tag host ma hint) (Plh h).
+  Proof.
+    induction fuel as [|f IH]; intros H b rev c rem num h tag host ma hint KN; simpl; [constructor|].
+    sb assign_from_block_m_safe; [exact KN|]. destruct r as [ips|e|].
+    - sret.
+    - destruct e; try (sret; constructor).
+      sb safe_get_block. destruct r as [[b' rev']|e]; [|sret; constructor]. apply IH. exact P0.
+    - sb handle_max_safe. destruct r as [ips|]; [sret|].
+      sb safe_get_block. destruct r as [[b' rev']|e]; [|sret; constructor]. apply IH. exact P1.
+  Qed.
+
+  Lemma na_try_m_safe fuel : forall H c rem num h tag host ma hint,
+    safe H (na_try_m cf fuel c rem num h tag host ma hint) (fun H' r => Forall (recorded_h H' h) (fst r)).
+  Proof.
+    induction fuel as [|f IH]; intros H c rem num h tag host ma hint; simpl; [constructor|].
+    sb safe_get_block. destruct r as [[b rev]|e]; [|sret; constructor].
+    sb assign_from_block_m_safe; [exact P|]. destruct r as [ips|e|].
+    - sret.
+    - destruct e; try (sret; constructor). apply IH.
+    - sb handle_max_safe. destruct r as [ips|]; [sret | apply IH].
+  Qed.
+
+  Lemma na_loop_m_safe order : forall H ips num h tag host ma hint,
+    Forall (recorded_h H h) ips -> safe H (na_loop_m cf order ips num h tag host ma hint) (Plh h).
+  Proof.
+    induction order as [|c rest IH]; intros H ips num h tag host ma hint F; simpl; [exact F|].
+    dif; [sret|].
+    sb na_try_m_safe.
+    assert (FA : Forall (recorded_h H0 h) (ips ++ fst r)).
+    { apply Forall_app. split; [eapply Forall_recorded_h_mono; eauto | exact P]. }
+    dif; [sret | apply IH; exact FA].
+  Qed.
+
+  Definition Presm (h : N) (H : hist) (r : result) : Prop :=
+    match r with ResIPs ips _ => Forall (recorded_h H h) ips | _ => True end.
+
+  Lemma aa_loop_m_safe fuel : forall H ips rem_aff owned num h tag host ma hint,
+    Forall (recorded_h H h) ips -> safe H (aa_loop_m cf fx fuel ips rem_aff owned num h tag host ma hint) (Presm h).
+  Proof.
+    induction fuel as [|f IH]; intros H ips rem_aff owned num h tag host ma hint F; simpl.
+    - dif; sret.
+    - dif; [sret|].
+      sb find_or_claim_safe. destruct r as [[[[[b rev] c] newly]|e] rem'].
+      + sb assign_retry_m_safe; [exact P|]. apply IH. apply Forall_app.
+        split; [|exact P0]. eapply Forall_recorded_h_mono; [|exact F].
+        eapply (@Cas.hext_trans key value); eauto.
+      + assert (F0 : Forall (recorded_h H0 h) ips) by (eapply Forall_recorded_h_mono; eauto).
+        destruct e; try sret.
+        dif; [|sret].
+        sb na_loop_m_safe; [exact F0|]. sret.
+  Qed.
+
+  Lemma auto_assign_m_safe H host h tag num ma hint : safe H (auto_assign_m cf fx host h tag num ma hint) (Presm h).
+  Proof.
+    unfold auto_assign_m. apply safe_act; [exact I|]. intros H' rs E HO OK.
+    destruct rs; try (sret; constructor). apply aa_loop_m_safe. constructor.
+  Qed.
+
+  (* AssignIP with MaxAlloc: success only if the address is recorded for the handle in a written block version
+     (or the ordinal lies outside the allocation array, impossible for an address of the block) *)
+  Definition Paipm (h a : N) (H : hist) (r : result) : Prop :=
+    match r with
+    | ResErr ENone => recorded_h H h a \/
+                      exists rev b, H rev = Some (KBlock (block_of cf a), VBlock b) /\ (length (bk_allocs b) <= ordinal_of b a)%nat
+    | _ => True
+    end.
+
+  Lemma assign_ip_loop_m_safe fuel : forall H host h tag a ma hint,
+    safe H (assign_ip_loop_m cf fx fuel host h tag a ma hint) (Paipm h a).
+  Proof.
+    induction fuel as [|f IH]; intros H host h tag a ma hint; simpl; [exact I|].
+    set (c := block_of cf a).
+    assert (CONT : forall H1 b brev, known H1 c b brev ->
+      safe H1
+        (match blk_assign b a h tag (cf_strict cf) host with
+         | inr EExists =>
+             match owner_of b (ordinal_of b a) with
+             | Some x => if optN_eqb (at_handle x) (Some h) then Ret (ResErr ENone) else Ret (ResErr EExists)
+             | None => Ret (ResErr EExists)
+             end
+         | inr e => Ret (ResErr (nz e))
+         | inl b' =>
+             i <- inc_handle_m (cf_retries cf) h c 1 ma ;;
+             match i with
+             | IMax =>
+                 hm <- handle_max h 1 hint ;;
+                 match hm with
+                 | None => assign_ip_loop_m cf fx f host h tag a ma hint
+                 | Some ips => if existsb (N.eqb a) ips then Ret (ResErr ENone) else Ret (ResErr EOther)
+                 end
+             | IErr _ => Ret (ResErr EOther)
+             | IOk =>
+                 w <- update_block c b' brev ;;
+                 match w with
+                 | inl _ => Ret (ResErr ENone)
+                 | inr EConflict => u_ <- dec_handle false (cf_retries cf) h c 1 None ;; assign_ip_loop_m cf fx f host h tag a ma hint
+                 | inr e => u_ <- dec_handle false (cf_retries cf) h c 1 None ;; Ret (ResErr (nz e))
+                 end
+             end
+         end) (Paipm h a)).
+    { intros H1 b brev KN.
+      destruct (blk_assign b a h tag (cf_strict cf) host) as [b'|e] eqn:BA.
+      - assert (BT : btrans b b') by (destruct (blk_assign_trans _ _ _ _ _ _ _ BA) as [[X _]|[X _]]; exact X).
+        sb inc_handle_m_safe. destruct r as [|e|].
+        + sb safe_update_block; [eapply known_mono; eauto | exact BT |].
+          destruct r as [[b2 rev2]|e].
+          * sret. destruct P0 as [(KH & _ & _) ->].
+            destruct (blk_assign_trans _ _ _ _ _ _ _ BA) as [[_ OW]|[_ L]].
+            -- left. exists rev2, c, (bump b'), (ordinal_of b a), {| at_handle := Some h; at_tag := tag |}.
+               split; [exact KH|]. split; [exact OW|]. split; [reflexivity|]. right.
+               unfold ordinal_of. simpl. destruct BT as [C _]. rewrite C. reflexivity.
+            -- right. exists rev2, (bump b'). split; [exact KH|].
+               destruct BT as [C _]. unfold ordinal_of in *. simpl. rewrite C.
+               assert (LEN : length (bk_allocs b') = length (bk_allocs b)).
+               { clear - BA. unfold blk_assign in BA. destruct (negb (aff_check_ok b (cf_strict cf) host)); [discriminate|].
+                 destruct (nth (ordinal_of b a) (bk_allocs b) None); [discriminate|].
+                 destruct (find_or_add_attr _ _). inversion BA; subst; simpl. apply set_nth_opt_length. }
+               rewrite LEN. exact L.
+          * destruct e; try (sb dec_handle_safe; sret). sb dec_handle_safe. apply IH.
+        + sret.
+        + sb handle_max_safe. destruct r as [ips|]; [|apply IH].
+          destruct (existsb (N.eqb a) ips) eqn:EX; [|sret].
+          sret. left. apply existsb_exists in EX. destruct EX as (y & Y & EQ). apply N.eqb_eq in EQ. subst y.
+          simpl in P0. rewrite Forall_forall in P0. apply P0; auto.
+      - destruct e; try sret.
+        destruct (owner_of b (ordinal_of b a)) as [x|] eqn:OO; [|sret].
+        destruct (optN_eqb (at_handle x) (Some h)) eqn:EH; [|sret].
+        sret. left. apply optN_eqb_eq in EH. destruct KN as (KH & _).
+        exists brev, c, b, (ordinal_of b a), x. auto. }
+    sb safe_get_block. destruct r as [[b brev]|e].
+    - apply CONT; exact P.
+    - destruct e; try sret.
+      sb get_pending_aff_safe. destruct r as [[st affrev]|e].
+      + sb claim_affine_block_safe. destruct r as [[b brev]|e].
+        * apply CONT; exact P1.
+        * destruct e; try sret. apply IH.
+      + destruct e; try sret. apply IH.
+  Qed.
+
   (* what a completed operation guarantees about its result *)
   Definition op_post (o : op) (H : hist) (r : result) : Prop :=
     match o with
     | OpAutoAssign h tag _ => Pres h tag H r
     | OpAssignIP h tag a => Paip h tag a H r
+    | OpAutoAssignM h _ _ _ _ => Presm h H r
+    | OpAssignIPM h _ a _ _ => Paipm h a H r
     | _ => True
     end.
 
   Theorem compile_safe H host o : safe H (compile_w cf fx fy host o) (op_post o).
   Proof.
-    destruct o; simpl.
+    destruct o; unfold compile_w; cbv beta iota.
     - apply auto_assign_safe.
     - apply assign_ip_loop_safe.
     - apply release_ips_safe.
     - apply release_by_handle_safe.
     - apply claim_aff_loop_safe.
     - apply release_aff_loop_safe.
+    - apply auto_assign_m_safe.
+    - apply assign_ip_loop_m_safe.
   Qed.
 
   (* a client = its operations in sequence; it returns every (operation, result) pair (acc: the pairs of the
@@ -531,6 +749,8 @@ Section OpsSafe.
     intros E. destruct o; simpl; auto.
     - destruct r; simpl; auto. apply Forall_recorded_mono; auto.
     - destruct r; simpl; auto. destruct e; auto. apply recorded_at_mono; auto.
+    - destruct r; simpl; auto. apply Forall_recorded_h_mono; auto.
+    - destruct r; simpl; auto. destruct e; auto. intros [X|(rev & b & A & B)]; [left; eapply recorded_h_mono; eauto | right; exists rev, b; auto].
   Qed.
 
   Lemma Qclient_mono : Cas.Qmono Qclient.
